@@ -1603,11 +1603,14 @@ Proof.
     assert (Dp : 0 < inject_Z d) by (replace 0 with (inject_Z 0) by reflexivity; rewrite <- Zlt_Qlt; lia).
     destruct (div_fin (fmax free zero) (of_Z d) M1 Z1) as [D1 D2]; [rewrite Z2; lra|].
     split; [assumption|]. rewrite D2, Z2. apply Qle_shift_div_l; [assumption|lra]. }
+  (* every arm is gap + x with x = 0.0 or max(free, 0) / (a count >= 1): robust against harmless edits of the table *)
   destruct mode;
-    try (destruct (add_fin gap zero Fg fin_zero) as [A1 A2]; split; [exact A1 | rewrite A2, val_zero; lra]).
-  - destruct (DV (n - 1)%Z ltac:(lia)) as [D1 D2]. destruct (add_fin gap _ Fg D1) as [A1 A2]. split; [exact A1|rewrite A2; lra].
-  - destruct (DV (n + 1)%Z ltac:(lia)) as [D1 D2]. destruct (add_fin gap _ Fg D1) as [A1 A2]. split; [exact A1|rewrite A2; lra].
-  - destruct (DV n ltac:(lia)) as [D1 D2]. destruct (add_fin gap _ Fg D1) as [A1 A2]. split; [exact A1|rewrite A2; lra].
+    match goal with
+    | |- finite (add ?g ?x) /\ _ =>
+        let F := fresh "F" in let P := fresh "P" in
+        assert (F : finite x /\ 0 <= val x) by (first [split; [exact fin_zero | rewrite val_zero; lra] | apply DV; lia]);
+        destruct F as [F P]; destruct (add_fin g x Fg F) as [A1 A2]; split; [exact A1 | rewrite A2; lra]
+    end.
 Qed.
 
 Lemma alignment_offset_first_fin (free gap : XQ) n mode rv : finite free -> finite gap -> (1 <= n)%Z ->
@@ -1803,4 +1806,43 @@ Proof.
     rewrite E3. apply ForallOrdPairs_rev in FW. exact FW.
   - apply place_pairs; [lra|assumption| |assumption].
     destruct (combine items' sizes) as [|x r] eqn:EL; [exact I|]. intros it s Hi. apply (PO it s). right. assumption.
+Qed.
+
+(* ================= the justify-content table (Gen/FlexGen.v) against CSS Box Alignment ================= *)
+Lemma q_sign_inject_pos k : (1 <= k)%Z -> q_sign (inject_Z k) = Gt.
+Proof. intro H. unfold q_sign. simpl. apply Z.compare_gt_iff. lia. Qed.
+Lemma x_div_pos (a : Q) (k : Z) : (1 <= k)%Z -> x_div (Fin a) (Fin (inject_Z k)) = Fin (a / inject_Z k).
+Proof. intro H. unfold x_div. rewrite (q_sign_inject_pos k H). reflexivity. Qed.
+Lemma x_max_Fin a b : x_max (Fin a) (Fin b) = Fin (qmx a b).
+Proof. unfold x_max, qmx. simpl. destruct (Qle_bool b a); reflexivity. Qed.
+Lemma inject_pos k : (1 <= k)%Z -> 0 < inject_Z k.
+Proof. intro H. replace 0 with (inject_Z 0) by reflexivity. rewrite <- Zlt_Qlt. lia. Qed.
+
+Ltac table_val Hf :=
+  unfold compute_alignment_offset;
+  cbn [fmax fmin QNum div add mul sub of_Z zero one leb ltb];
+  rewrite ?x_max_Fin; cbn [x_leb];
+  rewrite ?(proj2 (Qle_bool_iff _ _) Hf);
+  rewrite ?x_div_pos by lia; cbn [x_add val];
+  rewrite ?x_div_pos by lia; cbn [x_add val].
+
+(* offsets of the first / of every further item for non-negative free space and n >= 2 items:
+   start, end, center; space-between = free/(n-1) between items; space-around = free/n between, half of it at the ends;
+   space-evenly = free/(n+1) everywhere *)
+Theorem justify_offsets_spec (f g : Q) (n : Z) (rv : bool) : 0 <= f -> (2 <= n)%Z ->
+  let first m := val (compute_alignment_offset (Fin f) n (Fin g) m rv true) in
+  let next m := val (compute_alignment_offset (Fin f) n (Fin g) m rv false) in
+  (first AC_Start == 0 /\ next AC_Start == g) /\
+  (first AC_End == f /\ next AC_End == g) /\
+  (first AC_FlexStart == (if rv then f else 0) /\ next AC_FlexStart == g) /\
+  (first AC_FlexEnd == (if rv then 0 else f) /\ next AC_FlexEnd == g) /\
+  (first AC_Center == f / 2 /\ next AC_Center == g) /\
+  (first AC_Stretch == 0 /\ next AC_Stretch == g) /\
+  (first AC_SpaceBetween == 0 /\ next AC_SpaceBetween == g + f / inject_Z (n - 1)) /\
+  (first AC_SpaceAround == f / inject_Z n / 2 /\ next AC_SpaceAround == g + f / inject_Z n) /\
+  (first AC_SpaceEvenly == f / inject_Z (n + 1) /\ next AC_SpaceEvenly == g + f / inject_Z (n + 1)).
+Proof.
+  intros Hf Hn first next. subst first next. cbv beta.
+  assert (Q0 : qmx f 0 == f) by (qcases; lra).
+  repeat split; table_val Hf; try (destruct rv; cbn [val]); try rewrite Q0; try lra; try reflexivity.
 Qed.
